@@ -102,6 +102,22 @@ impl TableBuilder for PostgresQueryBuilder {
         }
 
         alter.options.iter().fold(true, |first, option| {
+            // a column modification made only of specifications that Postgres does not
+            // express in ALTER TABLE renders nothing: it takes no separator either
+            if let TableAlterOption::ModifyColumn(column_def) = option {
+                if column_def.types.is_none()
+                    && column_def.spec.iter().all(|spec| {
+                        matches!(
+                            spec,
+                            ColumnSpec::AutoIncrement
+                                | ColumnSpec::Generated { .. }
+                                | ColumnSpec::Comment(_)
+                        )
+                    })
+                {
+                    return first;
+                }
+            }
             if !first {
                 write!(sql, ", ").unwrap();
             };
